@@ -43,9 +43,12 @@ def main(ctx, args):
         ctx.finish()
     times = 24 if ctx.tier == "quick" else 96
     plan = [("scalar", 800, False), ("scalar_tself", 400, False), ("scalar_deep", 300, False), ("nolam", 700, False), ("records", 300, False),
-            ("aggr", 400, False), ("scalar", 200, True)] if ctx.tier == "quick" else \
+            ("aggr", 400, False), ("scalar", 200, True),
+            # closures (captured reads and writes, lambdas inside lambdas): both back ends agree on them since ee06339 / 4f22791
+            ("core", 400, False), ("closure_assign", 200, False), ("nested", 200, False), ("nested_assign", 200, False)] if ctx.tier == "quick" else \
            [("scalar", 8000, False), ("scalar_tself", 4000, False), ("scalar_deep", 3000, False), ("nolam", 8000, False), ("records", 3000, False),
-            ("aggr", 4000, False), ("scalar", 2000, True)]
+            ("aggr", 4000, False), ("scalar", 2000, True),
+            ("core", 4000, False), ("closure_assign", 2000, False), ("nested", 2000, False), ("nested_assign", 2000, False)]
     allcases = []
     gstats = collections.Counter()
     if args.replay:
